@@ -244,3 +244,40 @@ VERIF_HARNESS(c06_s3_timer_scan) {
 #endif
 }
 #endif
+
+/* ---- S3r: the timer scan with the REAL coap_retransmit, one message in the queue, the I/O step possibly (very) late ------------
+ * However late coap_io_prepare_io_lkd() is called, one call retransmits a due message once: the next copy is T * 2^k after THIS
+ * transmission (RFC 7252 4.2 back-off measured from each firing), never back to back in the same call. */
+#ifndef STUB_RETRANSMIT
+VERIF_HARNESS(c06_s3_timer_fire_real) {
+  ne_init();
+  VERIF_IN(uint16_t, mid);
+  VERIF_IN(uint32_t, timeout);
+  VERIF_IN(uint8_t, cnt);
+  VERIF_IN(uint64_t, base);
+  VERIF_IN(uint64_t, rel);
+  VERIF_IN(uint64_t, late);
+  VERIF_IN_BUF(tok, 4);
+  VERIF_ASSUME(timeout >= 1 && timeout <= 300000 && cnt <= 2);
+  VERIF_ASSUME(base < (1ull << 50) && rel < (1ull << 30) && late < (1ull << 32));
+  ne_sess.max_retransmit = 4;
+  ne_sess.con_active = 1;
+  coap_tick_t now = base + rel + late;               /* the message was due at base + rel; the step runs `late` ticks after that */
+  env_now = now;
+  ne_ctx.sendqueue_basetime = base;
+  coap_pdu_t *pdu = ne_make_pdu(COAP_MESSAGE_CON, 1, mid, tok, 4);
+  coap_queue_t *node = ne_make_node(&ne_sess, pdu, timeout, cnt);
+  node->t = rel;
+  ne_ctx.sendqueue = node;
+  coap_socket_t *socks[1];
+  unsigned int ns = 0;
+  unsigned int wait = coap_io_prepare_io_lkd(&ne_ctx, socks, 1, &ns, now);
+  VERIF_ASSERT(ne_tx_count == 1, "S3r one I/O step retransmits a due message exactly once, however late the step runs");
+  VERIF_ASSERT(node->retransmit_cnt == cnt + 1 && ne_in_queue(ne_ctx.sendqueue, node), "S3r the message is queued again with its counter advanced by one");
+  VERIF_ASSERT(ne_deadline(node) == now + ((coap_tick_t)timeout << (cnt + 1)), "S3r the next retransmission is T * 2^k after this one (back-off measured from each firing)");
+  VERIF_ASSERT(wait > 0 && (coap_tick_t)wait <= ((coap_tick_t)timeout << (cnt + 1)), "S3r the reported wait does not sleep past the next retransmission");
+#ifdef WITNESS
+  if (late > ((coap_tick_t)timeout << (cnt + 1))) VERIF_REACH("S3r step later than the next back-off interval");
+#endif
+}
+#endif
